@@ -144,6 +144,8 @@ pub struct RunOut {
     pub aborted: Option<String>,
     pub finished: bool,
     pub flags: Vec<&'static str>,
+    /// public-API state proxies seen before calls (decoders)
+    pub states: Vec<u64>,
 }
 
 pub enum Source<'a> {
@@ -761,6 +763,9 @@ fn exec_dec(prop: &str, spec: &DecSpec, source: &mut dyn OpSource) -> RunOut {
     if spec.skip_fast {
         flags.push("buggify_skip_fast_utf8");
     }
+    let mut states: Vec<u64> = run.calls.iter().map(|c| c.state_before).collect();
+    states.sort_unstable();
+    states.dedup();
     RunOut {
         viols,
         calls: run.calls.len(),
@@ -774,6 +779,7 @@ fn exec_dec(prop: &str, spec: &DecSpec, source: &mut dyn OpSource) -> RunOut {
         aborted: run.aborted.clone(),
         finished: run.finished,
         flags,
+        states,
     }
 }
 
@@ -898,6 +904,7 @@ fn exec_enc(prop: &str, spec: &EncSpec, source: &mut dyn OpSource) -> RunOut {
         aborted: run.aborted.clone(),
         finished: run.finished,
         flags: Vec::new(),
+        states: Vec::new(),
     }
 }
 
@@ -916,6 +923,7 @@ fn exec_mem(prop: &str, spec: &MemSpec, source: &mut dyn OpSource) -> RunOut {
         aborted: run.aborted.clone(),
         finished: run.finished,
         flags: Vec::new(),
+        states: Vec::new(),
     }
 }
 
@@ -946,5 +954,19 @@ pub fn execute(prop: &str, case: &mut Case, source: Source) -> RunOut {
     };
     let rec = src.recorded().to_vec();
     *case.ops_mut() = rec;
+    let mut out = out;
+    if let Case::Dec { strategy, .. } = case {
+        if strategy.contains("+corrupt") {
+            out.flags.push("fault_corrupt_stream_byte");
+        }
+        if strategy.contains("+truncate") {
+            out.flags.push("fault_truncate_stream");
+        }
+        for (k, f) in [("encoded-text", "workload_encoded_text"), ("edge-alphabet", "workload_edge_alphabet"), ("long-runs", "workload_long_runs"), ("ascii", "workload_ascii")] {
+            if strategy.starts_with(k) {
+                out.flags.push(f);
+            }
+        }
+    }
     out
 }
